@@ -29,7 +29,8 @@ E_TPL = (("T", "(e:"), ("V", "kv"), ("T", ")"))
 
 def make_spec(name, template):
     if name == "c":
-        return CompSpec("c", C_TPL, {"kv": ("inject", "k", "v", "-"), "mv": ("inject", "m", "v", "-"), "mf": ("inject", "m", None, "-")})
+        # defaults: a string, the falsy number 0 and the empty tuple - "outside every provider it returns the given default"
+        return CompSpec("c", C_TPL, {"kv": ("inject", "k", "v", "-"), "mv": ("inject", "m", "v", 0), "mf": ("inject", "m", None, ())})
     if name == "e":
         return CompSpec("e", E_TPL, {"kv": ("inject", "k", "v", None)})
     return CompSpec(name, template, {}, ())
